@@ -221,7 +221,9 @@ check("C11", "concurrent requests never lose or tear updates", "exploration",
       "background collections) are released together; every call is recorded with call/return times. Lost or torn updates show either at quiescence (acknowledged, never-deleted manifest or referrer missing; tag "
       "resolving to a digest nobody pushed under it) or as a history that no sequential order consistent with real time explains (porcupine). A second generator lets 2-4 clients use one upload "
       "session at once (PATCH at remembered or freshly queried offsets, bodies arriving in small reads, status queries): acknowledged chunks must tile the upload, status answers must lie within the bytes acknowledged/started, "
-      "and completing with the digest of the concatenation must succeed and read back exactly.",
+      "and completing with the digest of the concatenation must succeed and read back exactly. Owned schedules for pairs (TestC11Interleave on the vfs build, TestC11InterleaveLocks on the vsync build): request R1 is paused before "
+      "its k-th file-system call / mutex acquisition (k over all of them), R2 runs in that gap; answers, readable state and readable state after a restart must equal those of R1;R2 or R2;R1 executed on fresh copies - "
+      "an oracle by execution that needs no model.",
       "Trusted: porcupine v1.3.0; monotonic clock readings around each call; the Go scheduler decides the interleavings (the harness owns neither the scheduler nor the points inside a handler), so absence is not "
       "established. A second 202 for a delete that raced past the same existence check is accepted; while finding C11/artifact-put-not-atomic is open an artifact push is modelled as two atomic steps, "
       "and while C11/session-patch-not-atomic is open the harness admits one PATCH per session at a time.",
@@ -253,7 +255,9 @@ check("C19", "every setting has its documented effect", "exploration",
       "Four generated layers: (1) arbitrary Config values through SetDefaults twice (explicit values kept, documented defaults filled, idempotent); (2) 'olareg serve' built from the tree under test and started "
       "as a process per generated flag vector, probed over loopback and compared with the behaviour table written from the flag help (push/delete/blob-delete/referrer/read-only/store type/dir/warnings/rate limit); "
       "(3) the rate limiter on a virtual clock against RateLimit 1-5 with requests arriving via RemoteAddr (several ports) and X-Forwarded-For; (4) SIGTERM/SIGINT while idle, during a slow upload or a burst: exit "
-      "status 0 within 20 s, the directory a valid layout, everything acknowledged still served by a fresh server.",
+      "status 0 within 20 s, the directory a valid layout, everything acknowledged still served by a fresh server. Two in-process layers were added later: TestC19Toggle (two servers whose settings differ in exactly one of "
+      "11 switches answer the same probes over copies of one directory: equal except where the switch governs, there per the table) and TestC19GC (a negative gc frequency: nothing is ever collected, whatever the "
+      "grace period, policy, cache eviction or restart).",
       "Trusted: the behaviour table in c19_test.go (from the flag help text and config.go comments); testing/synctest for layer 3; a request exactly one second after its window opened may be counted either way; "
       "the microsecond window between signal.Notify and Server.Run storing its http.Server cannot be hit from outside the process (not claimed).",
       "DESIGN.md §3 C19",
